@@ -626,7 +626,52 @@ pub fn run(ctx: &Ctx) -> Report {
                 rep.counters.inc("tls_cuts_err_expected_and_seen");
             });
             rep.merge(r);
+            // the TLS handshake completes, and the client goes away before (or in the middle of) its
+            // handshake response, politely (close_notify) or not: the connection ended before the
+            // MySQL handshake completed, so run_on returns an error and no callback runs
+            let variants = 24u64;
+            let r = par_cases(ctx, "C19", "tls-close-before-response", variants, |rng, i, rep| {
+                let caps = 0x003f_a685 | wire::CLIENT_SSL;
+                let full = wire::raw_packet(&wire::handshake41(caps, 1 << 24, 0x21, b"early-leaver", b"\0"), 2);
+                let app: Vec<u8> = match i % 4 {
+                    0 => vec![],
+                    1 => full[..3].to_vec(),
+                    2 => full[..4 + rng.below(20) as usize].to_vec(),
+                    _ => full[..full.len() - 1].to_vec(),
+                };
+                let close_notify = i % 8 < 4;
+                let c = super::c18::TlsCase { tls13: i % 3 != 0, with_cert: false, server_mode: 0, user: b"early-leaver".to_vec(), cmds: vec![], scripts: vec![], first_cut: 0, cycle: if rng.bool() { vec![] } else { vec![rng.range(1, 100) as usize] }, write_limit: usize::MAX, close_notify, raw_limit: None, hs_variant: 0, app_override: Some(app.clone()), seqs: (1, 2), auth_reject: None, record_per_command: false, write_fault: None };
+                let o = match super::c18::run_tls(&tm, &c) {
+                    Ok(o) => o,
+                    Err(e) => {
+                        rep.inconclusive.push(format!("TLS harness error: {}", e));
+                        return;
+                    }
+                };
+                rep.evaluations += 1;
+                rep.counters.inc("eof_cuts");
+                rep.counters.class(format!("tls: client leaves after {} of {} bytes of its handshake response, {} -> {}", app.len(), full.len(), if close_notify { "close_notify" } else { "no close_notify" }, o.outcome.class()));
+                let d = || J::obj().set("transport", "TLS").set("fault", format!("after the TLS handshake the client sends {} of the {} bytes of its handshake response and closes ({})", app.len(), full.len(), if close_notify { "with close_notify" } else { "without close_notify" })).set("outcome", o.outcome.describe());
+                if let Outcome::Panic { file, line, msg } = &o.outcome {
+                    if !is_harness_file(file) {
+                        rep.violations.push(viol("C19", format!("C19 {} under tls early close", panic_signature(file, *line, msg)), format!("run_on panicked: {}", o.outcome.describe()), d()));
+                    }
+                    return;
+                }
+                if !o.outcome.is_err() {
+                    rep.violations.push(viol("C19", "C19 tls-eof-masked before the handshake response".into(), format!("the client left before completing its handshake response, run_on returned {}", o.outcome.describe()), d()));
+                    return;
+                }
+                if let Some(cb) = o.log.cbs.first() {
+                    rep.violations.push(viol("C19", "C19 tls-callback-for-undelivered-bytes".into(), format!("{} ran although the handshake response never arrived completely", cb_summary(cb)), d()));
+                    return;
+                }
+                rep.counters.inc("eof_err_expected_and_seen");
+                rep.counters.inc("tls_early_close_err_expected_and_seen");
+            });
+            rep.merge(r);
             if ctx.strict() {
+                rep.require("tls_early_close_err_expected_and_seen", 10);
                 rep.require("tls_cuts_err_expected_and_seen", 50);
                 rep.require("tls_cuts_callback_bound_checked", 50);
             }
